@@ -2228,9 +2228,13 @@ func (r *Runtime) toReflectValue(v Value, dst reflect.Value, ctx *objectExportCt
 		return nil
 	case reflect.Slice, reflect.Array:
 		if o, ok := v.(*Object); ok {
-			if v, exists := ctx.getTyped(o, typ); exists {
-				dst.Set(reflect.ValueOf(v))
-				return nil
+			// Go arrays are values: what the export cache holds for an array type is a copy taken before the elements
+			// were converted (all zero), so only slices can be shared.
+			if kind == reflect.Slice {
+				if v, exists := ctx.getTyped(o, typ); exists {
+					dst.Set(reflect.ValueOf(v))
+					return nil
+				}
 			}
 			return o.self.exportToArrayOrSlice(dst, typ, ctx)
 		}
